@@ -93,7 +93,11 @@ def _cond(node: ast.expr, env: dict[str, str], sets: dict[str, str]) -> str:
     if isinstance(node, ast.Compare) and len(node.ops) == 1:
         op, rhs = node.ops[0], node.comparators[0]
         if isinstance(op, (ast.Eq, ast.NotEq)):
-            t = f"(list_eqb {_expr(node.left, env)} {_expr(rhs, env)})"
+            # == is commutative: canonical operand order (the element of the scanned list first, then textual)
+            import re as _re
+            a, b = sorted((_expr(node.left, env), _expr(rhs, env)),
+                          key=lambda t: (0 if _re.search(r"\b(item|k)\b", t) else 1, t))
+            t = f"(list_eqb {a} {b})"
             return t if isinstance(op, ast.Eq) else f"(negb {t})"
         if isinstance(op, (ast.In, ast.NotIn)):
             key = ast.unparse(rhs)
@@ -688,7 +692,8 @@ def hd_obs(h, keys, idxs) -> str:
     out += [OL(h.getlist(k)) for k in keys]
     out += [O(k in h) for k in keys]
     out += [attempt(lambda i=i: h[i], lambda p: "P" + S(p[0]) + "=" + S(p[1])) for i in idxs]
-    out += [OQ(list(h[1:])), OQ(list(h[:-1])), OQ(list(h[-2:5])), OQ(list(h[2:1]))]
+    out += [attempt(lambda: list(h[1:]), OQ), attempt(lambda: list(h[:-1]), OQ), attempt(lambda: list(h[-2:5]), OQ),
+            attempt(lambda: list(h[2:1]), OQ)]
     return "|".join(out)
 
 
@@ -1851,38 +1856,47 @@ class Runner:
         self.lines: list[str] = []
         self.impl: list[str] = []
 
+    def _guard(self, fn, *a, case=None):
+        """an exception escaping a runner means a public read or the harness protocol failed on the implementation:
+        report it as a failing input instead of dying"""
+        try:
+            return with_timeout(fn, 20, *a)
+        except Exception as e:  # noqa: BLE001
+            self.chk.fail("implementation-raised", f"{type(e).__name__}: {e} escaped while operating / observing", case)
+            return "RAISED:" + type(e).__name__
+
     def _push(self, line, out, nops, sample=None):
         self.lines.append(line)
         self.impl.append(out)
         self.chk.case(line, nontrivial=nops > 0, sample=sample)
 
     def hs(self, init, ops, oracle=True):
-        out = with_timeout(run_hs, 20, self.chk, self.ds, init, ops, oracle)
+        out = self._guard(run_hs, self.chk, self.ds, init, ops, oracle, case={"kind": "hs", "init": list(init), "ops": [list(o) for o in ops]})
         self._push(_line("hs", L(init), [hs_tok(o) for o in ops]), out, len(ops),
                    {"kind": "HeaderSet", "init": list(init), "ops": [list(o) for o in ops][:6]} if len(ops) == 3 else None)
         self.chk.count(f"HeaderSet:len{min(len(ops), 5)}{'+' if len(ops) > 5 else ''}")
 
     def hd(self, init, ops, oracle=True):
-        out = with_timeout(run_hd, 20, self.chk, self.ds, init, ops, oracle)
+        out = self._guard(run_hd, self.chk, self.ds, init, ops, oracle, case={"kind": "hd", "init": init, "ops": [list(o) for o in ops]})
         self._push(_line("hd", "n" if init is None else harg_tok(init), [hd_tok(o) for o in ops]), out, len(ops),
                    {"kind": "Headers", "init": repr(init), "ops": [repr(o) for o in ops][:6]} if len(ops) == 2 else None)
         self.chk.count(f"Headers:len{min(len(ops), 5)}{'+' if len(ops) > 5 else ''}")
 
     def md(self, init, ops, oracle=True, immutable=False):
         cls = self.ds.ImmutableMultiDict if immutable else self.ds.MultiDict
-        out = with_timeout(run_md, 20, self.chk, self.ds, init, ops, oracle, cls)
+        out = self._guard(run_md, self.chk, self.ds, init, ops, oracle, cls, case={"kind": "imd" if immutable else "md", "init": init, "ops": [list(o) for o in ops]})
         self._push(_line("imd" if immutable else "md", "n" if init is None else marg_tok(init), [md_tok(o) for o in ops], idxs=None),
                    out, len(ops), {"kind": cls.__name__, "init": repr(init), "ops": [repr(o) for o in ops][:6]} if len(ops) == 2 else None)
         self.chk.count(f"{cls.__name__}:len{min(len(ops), 5)}{'+' if len(ops) > 5 else ''}")
 
     def cmd(self, inits, ops, oracle=True):
-        out = with_timeout(run_cmd, 20, self.chk, self.ds, inits, ops, oracle)
+        out = self._guard(run_cmd, self.chk, self.ds, inits, ops, oracle, case={"kind": "cmd", "inits": inits, "ops": [list(o) for o in ops]})
         line = " ".join(["cmd", L(PROBE), str(len(inits))] + [marg_tok(i) for i in inits] + [cop_tok(o) for o in ops])
         self._push(line, out, len(ops) + 1)
         self.chk.count("CombinedMultiDict")
 
     def eh(self, env, ops, oracle=True):
-        out = with_timeout(run_eh, 20, self.chk, self.ds, env, ops, oracle)
+        out = self._guard(run_eh, self.chk, self.ds, env, ops, oracle, case={"kind": "eh", "env": dict(env), "ops": [list(o) for o in ops]})
         line = " ".join(["eh", L(ENV_PROBE), kvs(env.items(), S)] + [hd_tok(o) for o in ops])
         self._push(line, out, 1)
         self.chk.count("EnvironHeaders")
@@ -1918,13 +1932,12 @@ def run(chk: Check) -> None:
         for n in (1, 2):
             for ops in seqs(full, n):
                 R.hs(init, ops)
-    for init in ([[], ["A", "b"]] if quick else HS_INITS):
+    for init in ([], ["A", "b"]):
         for ops in seqs(red if quick else full, 3):
             R.hs(init, ops)
     if not quick:
-        for init in ([], ["A", "b"]):
-            for ops in seqs(red, 4):
-                R.hs(init, ops)
+        for ops in seqs(red, 4):
+            R.hs(["A", "b"], ops)
     FRESH[0] = True
     for _ in range(1500 if quick else 30000):
         R.hs(rng.choice(HS_INITS[:-2] + [["Accept", "Cookie"]]), [hs_random_op(rng) for _ in range(rng.randint(4, 30))])
@@ -1959,12 +1972,12 @@ def run(chk: Check) -> None:
                 R.md(init, ops)
         for ops in seqs(full, 1):
             R.md(init, ops, immutable=True)
-    for init in (MD_INITS[1:2] if quick else MD_INITS):
-        for ops in seqs(red if quick else full, 3):
-            R.md(init, ops)
+    for ops in seqs(red if quick else full, 3):
+        R.md(MD_INITS[1], ops)
     if not quick:
-        for ops in seqs(red, 4):
-            R.md(MD_INITS[1], ops)
+        for init in MD_INITS[3:5]:
+            for ops in seqs(red, 3):
+                R.md(init, ops)
     FRESH[0] = True
     for _ in range(1500 if quick else 30000):
         R.md(rng.choice(MD_INITS), [md_random_op(rng) for _ in range(rng.randint(4, 30))])
@@ -2062,7 +2075,12 @@ def main(chk: Check) -> None:
         "abstract reference models in tools/c08.py (ref_hs, ref_hd, ref_md) are the harness's transcription of the documented models",
         "harness only (not proved): copy independence, pickle, copy.deepcopy, __eq__/__hash__ consistency, get(type=), None values, FileMultiDict",
     ]
-    run(chk)
+    try:
+        run(chk)
+    except Exception:  # noqa: BLE001
+        import traceback
+        chk.broken("harness-exception", "run", "an exception escaped the harness (the implementation raised where the harness does "
+                   "not expect it):\n" + traceback.format_exc())
     chk.finish(rule="HeaderSet / Headers / MultiDict: every operation sequence of length 1-2 over the full operation alphabet "
                     "(keys a, A, b[, B]; values 1, 2 and one CR/LF value for Headers) from every constructor input, length 3 (quick: reduced "
                     "alphabet, two constructor inputs; thorough: full alphabet / length 4 reduced), random sequences of length 4-30; "
